@@ -51,7 +51,7 @@ func init() {
 			}
 			return jobs
 		},
-		Budget:    map[string]time.Duration{"quick": 8 * time.Minute, "thorough": 60 * time.Minute},
+		Budget:    map[string]time.Duration{"quick": 12 * time.Minute, "thorough": 60 * time.Minute},
 		TimeoutMs: map[string]int{"quick": 60000, "thorough": 120000},
 		Reach:     []string{"transitivity premise", "equal pair"},
 		Bounds: map[string]interface{}{"scalars": "all int64, all float64 bit patterns (incl. -0, NaN, infinities, subnormals), both booleans, nil, strings of 0..2 arbitrary bytes",
